@@ -583,6 +583,9 @@ func RunWorker(t *testing.T, propID, tier string, seed uint64, worker, workers, 
 		v := &simrt.Violation{Class: "hang", Site: "no-progress", Text: fmt.Sprintf("a case made no progress for %d s of wall-clock time (busy loop or block outside every simulated seam)", hangSeconds)}
 		path := filepath.Join(replayDir, fmt.Sprintf("%s-%d-%d-hang.json", propID, seed, worker))
 		WriteReplay(path, c, &Result{Viol: v})
+		// where every goroutine of the process is, for whoever reads the report
+		buf := make([]byte, 8<<20)
+		os.WriteFile(strings.TrimSuffix(path, ".json")+".stacks.txt", buf[:runtime.Stack(buf, true)], 0o644)
 		st.Found = append(st.Found, &Found{Sig: v.Signature(), Viol: v, Replay: path, Count: 1, First: w.unit})
 		writeStats()
 		cleanupScratch()
